@@ -66,6 +66,7 @@ PROPS = {
             {"pkg": "./c14", "run": "TestC14Commands", "shards": 4, "shards_thorough": 16, "timeout": 300},
             {"pkg": "./c14", "run": "TestC14ConcurrentBuild", "race": True, "shards": 2, "shards_thorough": 6, "timeout": 300},
             {"pkg": "./mainpkg", "run": "^TestC14", "shards": 4, "shards_thorough": 8, "timeout": 400},
+            {"pkg": "./mainpkg", "run": "^TestC14Pipeline", "race": True, "shards": 4, "shards_thorough": 4, "timeout": 400},
         ],
         "rule": ("rapid-generated Consul catalog entries: service names (plain, dotted, with space/tab/newline, quote, backslash, non-ASCII, empty, keywords), service/node addresses (IPv4, IPv6, host name, empty -> node "
                  "address), ports, 1-3 urlprefix- tags host/path with mixed-case hosts, :port form, $DC/${DC} expansion, glob characters, and 0-3 options from {proto=tcp|https|grpc|grpcs|http|bogus, weight=<float|junk|Inf|"
@@ -232,7 +233,8 @@ PROPS = {
         "units": [
             {"pkg": "./c13", "run": "TestC13Sequential|TestC13SelfRedirect|TestC13FromServiceTags", "shards": 4, "shards_thorough": 16, "timeout": 300},
             {"pkg": "./c13", "run": "TestC13Concurrent", "race": True, "shards": 2, "shards_thorough": 4, "timeout": 300},
-            {"pkg": "./mainpkg", "run": "^TestC13", "shards": 2, "shards_thorough": 4, "timeout": 300},
+            {"pkg": "./mainpkg", "run": "^TestC13MainWiring", "shards": 2, "shards_thorough": 4, "timeout": 300},
+            {"pkg": "./mainpkg", "run": "^TestC13Pipeline", "race": True, "shards": 4, "shards_thorough": 4, "timeout": 400},
         ],
         "rule": ("rapid-generated redirect routes over the documented template forms (https://h$path, https://$host$path, http://h/$path, http://h/bbb$path, http://h/bbb/$path, fixed targets, $host with fixed path; "
                  "with/without own query) under host-less, host-specific, *:80 and *.x routes, codes 300-399, strip/prepend combinations; requests parsed by net/http from raw bytes with percent-encoded octets "
